@@ -119,7 +119,7 @@ func genRange(t *rapid.T) (string, string) {
 func genCase(t *rapid.T) Case {
 	var c Case
 	nInit := 0
-	switch rapid.IntRange(0, 9).Draw(t, "bulk") {
+	switch vkit.Uni(t, 10, "bulk") {
 	case 0, 1, 2, 3:
 		nInit = rapid.IntRange(0, 5).Draw(t, "n")
 	case 4, 5, 6:
@@ -149,7 +149,7 @@ func genCase(t *rapid.T) Case {
 	nOps := rapid.IntRange(5, 60).Draw(t, "nOps")
 	for i := 0; i < nOps; i++ {
 		var op Op
-		op.Kind = rapid.SampledFrom([]string{"new", "new", "same", "same", "tweak", "tweak", "tweak", "rerange", "rerange", "rerange", "range", "range", "swallow", "remove", "remove", "removeAbsent"}).Draw(t, "kind")
+		op.Kind = vkit.PickU(t, []string{"new", "new", "same", "same", "tweak", "tweak", "tweak", "rerange", "rerange", "rerange", "range", "range", "swallow", "remove", "remove", "removeAbsent"}, "kind")
 		op.Pick = rapid.IntRange(0, 1000).Draw(t, "pick")
 		switch op.Kind {
 		case "new", "range", "removeAbsent":
